@@ -464,7 +464,7 @@ func (g *gen) attrs(tag string, extra ...attr) []attr {
 	}
 	k := g.n("nattr", 0, 3)
 	for i := 0; i < k; i++ {
-		switch g.n("akind", 0, 14) {
+		switch g.n("akind", 0, 15) {
 		case 0:
 			push(attr{name: "class", val: g.pick("cls", []string{"a", "a b", "btn  btn-primary", "\n    a\n    b\n  ", " x ", "{{ cls }}", "a {{ b }} c"})})
 		case 1:
@@ -497,6 +497,15 @@ func (g *gen) attrs(tag string, extra ...attr) []attr {
 			push(attr{name: "style", val: g.pick("sty", []string{"color: red;", "color: red;  margin: 0", "background: url('a.png')", `font-family: "Open Sans", serif`, "width: {{ w }}px"})})
 		case 12:
 			push(attr{name: "href", val: g.pick("href", []string{"#", "/a/b", "/s?q=1&p=2", "/s?a=1&amp=2&lt=3", "https://x.test/?a=b&c=d#e", "mailto:a@b.c", "{{ url }}", "/p/{{ id }}?x=1&y=2"})})
+		case 15:
+			// the same name several times on one element (docs/components.md: repeated :require)
+			name := g.pick("dupname", []string{":require", ":required", ":require", "v-bind:x", "class", "data-x", "@click", "title"})
+			vals := []string{"type", "text", "a < b", "b", `say "hi"`, "", "x && y", "title"}
+			reps := g.n("dupn", 2, 3)
+			for j := 0; j < reps; j++ {
+				delete(seen, strings.ToLower(name))
+				push(attr{name: name, val: g.pick("dupval", vals)})
+			}
 		case 14:
 			e := g.entityLike()
 			shape := g.pick("entshape", []string{"%s", "'%s'", "type %s for a half", "a%sb", "%s%s", "x ? '%s' : y", "?a=1%s2", "Grüße %s", "😀%s", "日本 – %s ©", "\"ü\" + \"%s\""})
